@@ -80,6 +80,7 @@ type hScenario struct {
 
 	// store content and fault (drawn on first use)
 	storeDrawn bool
+	jtiLen     int
 	maxEntries int
 	entries    []hEntry
 	storeErr   bool
@@ -160,7 +161,7 @@ func hDrawStore() {
 			e.subject = hSigners[hS.signer].subject
 		}
 		vTag("entry.id")
-		e.id = vString(vParam("jtilen", 2))
+		e.id = vString(hS.jtiLen)
 		hS.entries = append(hS.entries, e)
 	}
 }
@@ -419,7 +420,7 @@ func (t *hToken) Get(name string) (interface{}, bool) {
 			t.jti = ""
 		case hJtiString:
 			vTag("retract_jti")
-			t.jti = vString(vParam("jtilen", 2))
+			t.jti = vString(hS.jtiLen)
 		case hJtiArray:
 			t.jti = []interface{}{"a"}
 		case hJtiObject:
@@ -536,7 +537,7 @@ func (c *hCase) addCredential(withExpiration bool) {
 
 func hNewCase() *hCase {
 	c := &hCase{}
-	hS = &hScenario{signer: -1, maxEntries: vParam("entries", 1), maxMatched: vParam("matched", 2)}
+	hS = &hScenario{signer: -1, jtiLen: vParam("jtilen", 2), maxEntries: vParam("entries", 1), maxMatched: vParam("matched", 2)}
 	c.m = &Module{vcrInstance: hVCR{}, store: &sqlStore{}}
 	c.tok = &hToken{}
 
@@ -686,7 +687,7 @@ func hCheckVerdict(id string, c *hCase, err error) {
 // Match and signatures fine; the caller sets type, claims and clock.
 func hFixedCase(types []string) *hCase {
 	c := &hCase{}
-	hS = &hScenario{signer: 0, serviceID: "svc", maxEntries: vParam("entries4", 2), maxMatched: vParam("matched3", 2)}
+	hS = &hScenario{signer: 0, serviceID: "svc", jtiLen: vParam("jtilen", 2), maxEntries: vParam("entries4", 2), maxMatched: vParam("matched3", 2)}
 	c.m = &Module{vcrInstance: hVCR{}, store: &sqlStore{}}
 	c.tok = &hToken{audDrawn: true, aud: []string{"other", "svc"}}
 	c.format = vc.JWTPresentationProofFormat
@@ -742,6 +743,8 @@ func H16d() {
 
 func H16d_twin() {
 	c := hFixedCase(hTypes[2])
+	hS.maxEntries, hS.jtiLen = 2, 2
+	c.tok.jtiDrawn, c.tok.jtiSet, c.tok.jtiKind, c.tok.jti = true, true, hJtiString, vString(2)
 	c.finish()
 	if c.m.verifyRegistration(c.def, c.vp) == nil && len(hS.entries) == 2 && hS.entries[0].service != "svc" {
 		vAssert(false, "H16d_twin.reach: reachable")
@@ -751,6 +754,8 @@ func H16d_twin() {
 // H16a_twin: a retraction of an existing entry gets through the real code.
 func H16a_twin() {
 	c := hFixedCase(hTypes[1])
+	hS.maxEntries, hS.jtiLen = 1, 2
+	c.tok.jtiDrawn, c.tok.jtiSet, c.tok.jtiKind, c.tok.jti = true, true, hJtiString, vString(2)
 	c.finish()
 	if c.m.verifyRegistration(c.def, c.vp) == nil && len(hS.entries) == 1 && hS.remSec == 60 {
 		vAssert(false, "H16a_twin.reach: reachable")
